@@ -70,9 +70,17 @@ def run_cvc5(smt2: str, timeout_ms: int) -> str:
         return "unknown"
 
 
-def discharge(ob, input_syms, timeout_ms):
+def discharge(ob, input_syms, timeout_ms, prefer_cvc5=False):
     t0 = time.time()
     s = z3.Solver()
+    if prefer_cvc5 and ob.expect == "valid":
+        s0 = z3.Solver()
+        for h in ob.hyps:
+            s0.add(h)
+        s0.add(z3.Not(ob.goal))
+        if run_cvc5(s0.to_smt2(), min(timeout_ms, 5000)) == "unsat":
+            return {"name": ob.name, "kind": ob.kind, "expect": ob.expect, "solver": "cvc5", "status": "discharged",
+                    "time": round(time.time() - t0, 4)}
     # portfolio: z3 with a short budget, then cvc5 on the same query text, then z3 with the full budget.
     # z3's budgets are RESOURCE limits (rlimit, deterministic: about 1.4 M units per CPU second here), so a verdict does
     # not depend on how busy the machine is; the wall-clock timeout is only a generous backstop.
@@ -167,7 +175,7 @@ def prove_one(task):
         confirmed = None
         searched = False
         for ob in obls:
-            r = discharge(ob, ex.input_syms, sp.timeout_ms or timeout_ms)
+            r = discharge(ob, ex.input_syms, sp.timeout_ms or timeout_ms, prefer_cvc5=sp.prefer_cvc5)
             if r["status"] in ("failed", "unknown") and ob.expect == "valid":
                 if confirmed is not None:
                     # one replayed input per function is enough evidence; attach it
